@@ -24,6 +24,8 @@ const ifacePrelude = `(declare-fun typeof (Int) Int)
 (assert (= (typeof 0) 0))
 (assert (forall ((t Int) (r Int)) (! (and (= (typeof (mkptr t r)) t) (= (ptrof (mkptr t r)) r) (not (= (mkptr t r) 0))) :pattern ((mkptr t r)))))
 (assert (forall ((t Int) (r Int)) (! (and (= (typeof (mkint t r)) t) (= (intof (mkint t r)) r) (not (= (mkint t r) 0))) :pattern ((mkint t r)))))
+(declare-fun isptrtid (Int) Bool)
+(assert (forall ((x Int)) (! (=> (isptrtid (typeof x)) (= (mkptr (typeof x) (ptrof x)) x)) :pattern ((ptrof x)))))
 `
 
 const basePrelude = `(define-fun goquo ((a Int) (b Int)) Int (ite (>= a 0) (ite (> b 0) (div a b) (- (div a (- b)))) (ite (> b 0) (- (div (- a) b)) (div (- a) (- b)))))
@@ -76,11 +78,17 @@ func (vc *VC) buildQuery(o *Obligation, heap0 map[string]Term, extraAssume strin
 	if o.Modules["base"] || strings.Contains(all, "goquo") || strings.Contains(all, "gorem") || strings.Contains(all, "toU32") {
 		b.WriteString(basePrelude)
 	}
-	if o.Modules["iface"] || strings.Contains(all, "typeof") || strings.Contains(all, "mkptr") || strings.Contains(all, "mkint") {
+	hasTid := false
+	for _, k := range vc.strLits {
+		if k == "ptrtid" || k == "tid" {
+			hasTid = true
+		}
+	}
+	if hasTid || o.Modules["iface"] || strings.Contains(all, "typeof") || strings.Contains(all, "mkptr") || strings.Contains(all, "mkint") {
 		b.WriteString(ifacePrelude)
 	}
 	// symbol declarations from vc.strLits
-	var strs, tids, fns []string
+	var strs, tids, fns, ptrtids []string
 	for _, name := range sortedKeys(vc.strLits) {
 		kind := vc.strLits[name]
 		id := smtIdent(name)
@@ -104,6 +112,8 @@ func (vc *VC) buildQuery(o *Obligation, heap0 map[string]Term, extraAssume strin
 		case kind == "impl":
 			b.WriteString("(declare-fun " + id + " (Int) Bool)\n")
 			b.WriteString("(assert (not (" + id + " 0)))\n")
+		case kind == "ptrtid":
+			ptrtids = append(ptrtids, smtIdent("tid."+strings.TrimPrefix(name, "ptrtid.")))
 		case strings.HasPrefix(name, "fun."):
 			fname := strings.TrimPrefix(name, "fun.")
 			sig := kind // "(Int Int) Int"
@@ -121,6 +131,9 @@ func (vc *VC) buildQuery(o *Obligation, heap0 map[string]Term, extraAssume strin
 		} else {
 			b.WriteString("(assert (not (= 0 " + tids[0] + ")))\n")
 		}
+	}
+	for _, t := range ptrtids {
+		b.WriteString("(assert (isptrtid " + t + "))\n")
 	}
 	if len(fns) > 0 {
 		if len(fns) > 1 {
